@@ -31,7 +31,96 @@ let kv toks =
     toks;
   fun k -> try Stdlib.Hashtbl.find t k with Not_found -> failwith ("missing key " ^ k)
 
-(* fam=hold/deg/per/k;... *)
+(* the carrier E of a verify case: the base field or its quadratic / cubic extension.  Elements of E are written
+   c0_c1(_c2) (canonical residues in hex); values the Rust code holds in the base field are embedded with E::from *)
+type 'f carrier = { ops : 'f FieldOps.coq_FOps; emb : BinNums.coq_Z -> 'f; pe : string -> 'f; sh : 'f -> string }
+
+let z0 = BinNums.Z0
+let base_carrier fld = { ops = ops_of fld; emb = (fun v -> v); pe = z; sh = h }
+let quad_carrier o =
+  { ops = o; emb = (fun v -> (v, z0));
+    pe = (fun s -> match split '_' s with [ a; b ] -> (z a, z b) | _ -> failwith ("quad element " ^ s));
+    sh = (fun (a, b) -> h a ^ "_" ^ h b) }
+let cube_carrier o =
+  { ops = o; emb = (fun v -> ((v, z0), z0));
+    pe = (fun s -> match split '_' s with [ a; b; c ] -> ((z a, z b), z c) | _ -> failwith ("cube element " ^ s));
+    sh = (fun ((a, b), c) -> h a ^ "_" ^ h b ^ "_" ^ h c) }
+
+let verdict_name = function
+  | Accept -> "accept" | RejField -> "field" | RejOptions -> "options" | RejOod -> "ood" | RejFriCommit -> "fri"
+  | RejPow -> "pow" | RejTraceQuery -> "trace-query" | RejConsQuery -> "cons-query" | RejFri -> "fri"
+
+let rec list_eq eq a b = match a, b with [], [] -> true | x :: a', y :: b' -> eq x y && list_eq eq a' b' | _ -> false
+
+let verify_in (c : 'f carrier) fld g =
+  let o = c.ops in
+  let el s = Stdlib.List.map c.pe (split ',' s) in                      (* list of E elements *)
+  let erows s = Stdlib.List.map el (split '|' s) in
+  let bl s = Stdlib.List.map (fun x -> c.emb (z x)) (split ',' s) in     (* list of base elements, embedded *)
+  let brows s = Stdlib.List.map bl (split '|' s) in
+  (* fam=hold/deg/per/k;... *)
+  let fam =
+    Stdlib.List.map
+      (fun col ->
+        match Stdlib.String.split_on_char '/' col with
+        | [ hold; deg; per; k ] ->
+            { fc_hold = hold = "1"; fc_deg = nat_hex deg; fc_per = (if per = "-" then None else Some (nat_hex per)); fc_k = c.emb (z k) }
+        | _ -> failwith "fam")
+      (split ';' (g "fam")) in
+  (* groups=first:steps:col/xoff/c0+c1+..;col/xoff/..!first:steps:...   [pv] parses one polynomial coefficient *)
+  let groups_of pv s =
+    Stdlib.List.map
+      (fun gr ->
+        match Stdlib.String.split_on_char ':' gr with
+        | [ first; steps; cons ] ->
+            let cs =
+              Stdlib.List.map
+                (fun cn ->
+                  match Stdlib.String.split_on_char '/' cn with
+                  | [ col; xoff; poly ] -> { bc_col = nat_hex col; bc_xoff = c.emb (z xoff); bc_vpoly = Stdlib.List.map pv (split '+' poly) }
+                  | _ -> failwith "cons")
+                (split ';' cons)
+            in
+            { bg_first = nat_hex first; bg_steps = nat_hex steps; bg_cons = cs }
+        | _ -> failwith "group")
+      (split '!' s) in
+  let aw = int_hex (g "aw") in
+  let air = { air_n = nat_hex (g "n"); air_k = nat_hex (g "k"); air_g = c.emb (z (g "g")); air_periodic = brows (g "per");
+              air_groups = groups_of (fun x -> c.emb (z x)) (g "groups"); air_nt_main = nat_hex (g "ntm");
+              air_aux_groups = groups_of c.pe (g "agroups") } in
+  let n_of_z = function BinNums.Z0 -> BinNums.N0 | BinNums.Zpos p -> BinNums.Npos p | BinNums.Zneg _ -> failwith "negative position" in
+  let positions = Stdlib.List.map (fun s -> n_of_z (z s)) (split ',' (g "pos")) in
+  (* DeepComposer::new: x = E::from(g_lde^p * offset), computed in the base field *)
+  let xs = Stdlib.List.map c.emb (query_xs (ops_of fld) (z (g "off")) (z (g "glde")) positions) in
+  let coins = { c_aux_rands = el (g "ar"); cc_trans = el (g "tc"); cc_bnd = el (g "bc"); c_z = c.pe (g "z");
+                cc_deep_trace = el (g "dt"); cc_deep_cons = el (g "dc"); c_xs = xs } in
+  let aux = if aw = 0 then None else Some { ax_cur = el (g "acur"); ax_next = el (g "anext"); ax_rows = erows (g "qa") } in
+  let proof = { p_modulus = z (g "pmod"); p_options = zl (g "popts"); p_ood_cur = el (g "cur"); p_ood_next = el (g "next");
+                p_ood_evals = el (g "evals"); p_q_trace = brows (g "qt"); p_q_cons = erows (g "qc"); p_aux = aux } in
+  let fri0 = el (g "fri0") in
+  (* FRI verdict parameter: the first check of FriVerifier::verify (evaluations = layer-0 openings at the query positions);
+     the remaining FRI checks are those of an honest proof *)
+  let seen = ref [] in
+  let env = { e_modulus = z (g "emod"); e_acceptable = Stdlib.List.map zl (split '|' (g "acc")); e_fri_commit_ok = g "fric" = "1";
+              e_pow_ok = g "pow" = "1"; e_trace_auth = g "tauth" = "1"; e_cons_auth = g "cauth" = "1";
+              e_fri = (fun evals -> seen := evals; list_eq (fun a b -> o.FieldOps.feqb a b) evals fri0) } in
+  let w = Stdlib.List.length fam in
+  let v = verify_model o (fam_trans o fam) (fam_aux_trans o (nat_of_int w) (nat_of_int aw)) env air coins proof in
+  match v with
+  | Accept -> "accept " ^ (if !seen = [] then "-" else Stdlib.String.concat "," (Stdlib.List.map c.sh !seen))   (* the DEEP evaluations the model handed to the FRI verdict *)
+  | v -> verdict_name v
+
+let verify fld g =
+  match fld, g "ext" with
+  | _, "1" -> verify_in (base_carrier fld) fld g
+  | "f64", "2" -> verify_in (quad_carrier PolynomExt.quad64_ops) fld g
+  | "f62", "2" -> verify_in (quad_carrier PolynomExt.quad62_ops) fld g
+  | "f128", "2" -> verify_in (quad_carrier PolynomExt.quad128_ops) fld g
+  | "f64", "3" -> verify_in (cube_carrier PolynomExt.cube64_ops) fld g
+  | "f62", "3" -> verify_in (cube_carrier PolynomExt.cube62_ops) fld g
+  | _, e -> failwith ("extension " ^ e ^ " of " ^ fld)
+
+(* fam=hold/deg/per/k;... (base field: the reference validity predicate) *)
 let fam_of s =
   Stdlib.List.map
     (fun c ->
@@ -40,52 +129,6 @@ let fam_of s =
           { fc_hold = hold = "1"; fc_deg = nat_hex deg; fc_per = (if per = "-" then None else Some (nat_hex per)); fc_k = z k }
       | _ -> failwith "fam")
     (split ';' s)
-
-(* groups=first:steps:col/xoff/c0+c1+..;col/xoff/..!first:steps:... *)
-let groups_of s =
-  Stdlib.List.map
-    (fun g ->
-      match Stdlib.String.split_on_char ':' g with
-      | [ first; steps; cons ] ->
-          let cs =
-            Stdlib.List.map
-              (fun c ->
-                match Stdlib.String.split_on_char '/' c with
-                | [ col; xoff; poly ] -> { bc_col = nat_hex col; bc_xoff = z xoff; bc_vpoly = Stdlib.List.map z (split '+' poly) }
-                | _ -> failwith "cons")
-              (split ';' cons)
-          in
-          { bg_first = nat_hex first; bg_steps = nat_hex steps; bg_cons = cs }
-      | _ -> failwith "group")
-    (split '!' s)
-
-let verdict_name = function
-  | Accept -> "accept" | RejField -> "field" | RejOptions -> "options" | RejOod -> "ood" | RejFriCommit -> "fri"
-  | RejPow -> "pow" | RejTraceQuery -> "trace-query" | RejConsQuery -> "cons-query" | RejFri -> "fri"
-
-let rec list_eq a b = match a, b with [], [] -> true | x :: a', y :: b' -> x = y && list_eq a' b' | _ -> false
-
-let verify fld g =
-  let o = ops_of fld in
-  let fam = fam_of (g "fam") in
-  let air = { air_n = nat_hex (g "n"); air_k = nat_hex (g "k"); air_g = z (g "g"); air_periodic = rows (g "per"); air_groups = groups_of (g "groups") } in
-  let n_of_z = function BinNums.Z0 -> BinNums.N0 | BinNums.Zpos p -> BinNums.Npos p | BinNums.Zneg _ -> failwith "negative position" in
-  let positions = Stdlib.List.map (fun s -> n_of_z (z s)) (split ',' (g "pos")) in
-  let coins = { cc_trans = zl (g "tc"); cc_bnd = zl (g "bc"); c_z = z (g "z"); cc_deep_trace = zl (g "dt"); cc_deep_cons = zl (g "dc");
-                c_xs = query_xs o (z (g "off")) (z (g "glde")) positions } in
-  let proof = { p_modulus = z (g "pmod"); p_options = zl (g "popts"); p_ood_cur = zl (g "cur"); p_ood_next = zl (g "next");
-                p_ood_evals = zl (g "evals"); p_q_trace = rows (g "qt"); p_q_cons = rows (g "qc") } in
-  let fri0 = zl (g "fri0") in
-  (* FRI verdict parameter: the first check of FriVerifier::verify (evaluations = layer-0 openings at the query positions);
-     the remaining FRI checks are those of an honest proof *)
-  let seen = ref [] in
-  let env = { e_modulus = z (g "emod"); e_acceptable = Stdlib.List.map zl (split '|' (g "acc")); e_fri_commit_ok = g "fric" = "1";
-              e_pow_ok = g "pow" = "1"; e_trace_auth = g "tauth" = "1"; e_cons_auth = g "cauth" = "1";
-              e_fri = (fun evals -> seen := evals; list_eq evals fri0) } in
-  let v = verify_model o (fam_trans o fam) env air coins proof in
-  match v with
-  | Accept -> "accept " ^ show_l !seen   (* the DEEP evaluations the model handed to the FRI verdict *)
-  | v -> verdict_name v
 
 (* asr=kind/col/first/stride/v0+v1;... *)
 let asserts_of s =
